@@ -56,6 +56,9 @@ def site_return_obligations(fv, s, st, sv, pre=None):
     if not hits:
         fv.oblige(st, 'site[return %s]/unlisted-return' % txt[:60], z3.BoolVal(False), s)
         return
+    # vacuity guard: the return statement must be reachable under the assumptions collected so far (a proof of False here
+    # means the clauses below hold for no execution at all)
+    fv.oblige(pre if pre is not None else st, 'site[return %s]/cover' % txt[:60], z3.BoolVal(False), s, kind='cover')
     fv.bound_env.append({'value': sv})
     try:
         for n, e in hits:
